@@ -533,7 +533,7 @@ def main(argv=None):
                    "T3: Z[x]->Fq[x] transfer", "C02/C04: base-field operations are exact", "clang -O1 vs -Ofast"]
     chk.assumptions = ["base field behaves as a commutative ring without zero divisors (C02, C04)"]
     # lower layers whose specifications this check relies on: their obligations are part of this check's claim (framework.Check.include)
-    for dep in ['C02', 'C03', 'C04', 'C18', 'C19']:
+    for dep in ['C02', 'C03', 'C04', 'C18', 'C19', 'C20']:
         chk.include(dep)
     chk.run()
     chk.finish()
